@@ -233,6 +233,14 @@ def near_misses(raw: dict, rng: random.Random, malformed: bool = True) -> list:
     for d in ('j', 'i'):
         if d in dims:
             out.append((f'rename-dim-{d}', [['rename_dim', d, d + d]]))
+    # a SHOC standard dataset cut down to some of its four grids (both coordinates of the others removed,
+    # as `ncks -v` on the cell-centred variables leaves it): every proper subset of the grids
+    if set(SHOC_COORDS) <= set(names):
+        kinds = ['centre', 'left', 'back', 'grid']
+        for mask in range(1, 15):
+            gone = [k for b, k in enumerate(kinds) if mask >> b & 1]
+            out.append(('drop-grids=' + '+'.join(gone),
+                        [['del_var', f'{a}_{k}'] for k in gone for a in ('y', 'x')]))
     # variables
     for v in raw['vars']:
         n, va = v['name'], v['attrs']
